@@ -4,5 +4,7 @@ CONSTANTS
   MaxContrib = 5
   Focus <- FocusCore
   DEV_NestedSupertype = FALSE
-INVARIANTS FailsExactly MatchesContract UniqueNames Canonical Satisfies Idempotent EmitReplay
+  DEV_OwnerImportTwice = FALSE
+  DEV_OwnerNaming = TRUE
+INVARIANTS FailsExactly MatchesContract MatchesByKey OneImportPerKey UniqueNames Canonical Satisfies Idempotent EmitReplay
 CHECK_DEADLOCK FALSE
